@@ -115,7 +115,9 @@ Definition obs_eqb (a b : obs) : bool := obs_eqb_raw (norm a) (norm b).
    (3) when a session ends (bye) or expires it is gone, and no publisher or
        subscriber, open at the media server or resolvable through the client
        table, belongs to a session that is gone; when the media server
-       connection is lost every object that existed is closed and unresolvable;
+       connection is lost every object that existed is closed and unresolvable
+       (OByeIn / OExpireIn: the same bye / expiry with creations completing while
+       the close runs; observed when the close has returned);
    (4) a delete that has any effect (confirmation, or the object disappears) was
        asked by the session that created the object;
    (5) an id that does not resolve is answered with an error.                    *)
@@ -174,7 +176,7 @@ Definition chk_sessions (prev : obs) (o : op) (ob : obs) : bool :=
 (* (2) *)
 Definition client_msg_conn (o : op) : option N :=
   match o with
-  | OCmd c _ | OPayload c _ _ | OBye c | OUnknownType c | OMalformed c _ => Some c
+  | OCmd c _ | OPayload c _ _ | OBye c | OUnknownType c | OMalformed c _ | OByeIn c _ => Some c
   | _ => None
   end.
 Definition chk_prehello (b : bindings) (prev : obs) (o : op) (ob : obs) : bool :=
@@ -194,9 +196,9 @@ Definition chk_cleanup (b : bindings) (prev : obs) (o : op) (ob : obs) : bool :=
   | OMcuLost =>
       forallb (fun e => negb (memN (e_id e) (ids (ob_clients ob))) && negb (memN (e_id e) (ids (ob_open ob))))
               (ob_clients prev ++ ob_open prev)
-  | OBye c =>
+  | OBye c | OByeIn c _ =>
       match bound b c with Some sid => negb (memN sid (sids ob)) | None => true end
-  | OExpire sid => negb (memN sid (sids ob))
+  | OExpire sid | OExpireIn sid _ => negb (memN sid (sids ob))
   | _ => true
   end.
 
